@@ -242,6 +242,8 @@ def _conn_for(r, cbs):
     runopt = {}
     closer = None
     exp = {"close_args": (("n",), ("n",)), "ret": None, "end_event_t": end_t}
+    if r.get("interval") is not None and (int(r["interval"]) < S // 2 or (r.get("ptimeout") is not None and int(r["ptimeout"]) < S // 4)):
+        raise InvalidScenario("ping settings below the generator's range")
     if r.get("interval"):
         runopt["ping_interval"] = int(r["interval"])
         if r.get("ptimeout"):
